@@ -239,6 +239,18 @@ def cmd_check(args):
     # ---- Verus units
     for un in conf.get("units", []):
         res = run_verus(un, tier, seed)
+        if tier == "thorough" and "fatal" not in res:
+            # stability: the same unit under two more solver seeds must give the same set of failing functions;
+            # a disagreement is a solver artefact (undecided), never a violation
+            def _failset(r):
+                return sorted(k for k, v in r.get("funcs", {}).items() if v.get("success") is False)
+            base_fail = _failset(res)
+            for extra_seed in (seed + 1, seed + 2):
+                r2 = run_verus(un, tier, extra_seed)
+                if "fatal" in r2 or _failset(r2) != base_fail:
+                    undecided.append(f"unit {un}: verdict differs between solver seeds {seed} and {extra_seed} (unstable query): " + ", ".join(sorted(set(base_fail) ^ set(_failset(r2))))[:300])
+                    break
+            guards[f"{un}: same verdict under 3 solver seeds"] = not any(u.startswith(f"unit {un}: verdict differs") for u in undecided)
         if "fatal" in res:
             # extraction failed (lost anchor / construct the extractor does not know): the functions concerned have left the
             # verifier's reach.  Same bounded stand-in as for front-end errors below: probe search on the real code; only a
